@@ -42,7 +42,8 @@ META = {
             "batches, five ways of building/calling (x.Exp(), pp.Exp(x), pp.<alg>(data), non-contiguous input, requires_grad input); all four types, "
             "float32 and float64. A case is one algebra element; non-trivial = not the zero element; distinct by (type, dtype, "
             "branch bit and quantised |phi|, branch bit, sign and quantised |sigma|, quantised |tau|)",
-    "trusted": ["mpmath.expm at 60 digits (oracle on the real code: sampled stream, confirmation of every disagreement, search, replay)",
+    "trusted": ["glue stream: pp.Exp(LieTensor(data, ltype)) against the model's own dispatch / shape handling / dtype-eps selection (ppExp, c01.glue); accept/reject of INVALID caller input is recorded as an observation only",
+                "mpmath.expm at 60 digits (oracle on the real code: sampled stream, confirmation of every disagreement, search, replay)",
                 "the generator matrices hatM / se3Gen / rxso3Gen / sim3Gen of Proofs/Lemmas/LieExp.lean are the standard hat maps "
                 "[[sigma*1 + phi^, tau],[0,0]] (the harness builds the same matrices independently for mpmath)",
                 "IEEE rounding is not modelled: the theorems are exact identities (exact regimes) and explicit truncation bounds "
@@ -50,7 +51,7 @@ META = {
     "assumptions": ["generator bounds: rotation angle <= 4*pi, |log-scale| <= 8, finite inputs",
                     "relative error of the rotation block is measured against 1 (unit quaternion / orthogonal matrix), of the "
                     "scale block against e^sigma, of the translation block against |tau|_inf * (e^sigma-1)/sigma"],
-    "partial": ["rounding: the clause 'relative error at most k*eps / k*sqrt(eps)' is decided as theorem over the reals (40 theorems: "
+    "partial": ["rounding (reduced in pass 3 to four per-call accuracies gamma_q, gamma_s, gamma_t, gamma_M that are measured on every sampled case; theorems rounded_so3Exp / rounded_sim3Exp turn them into the entrywise bound for every input): the clause 'relative error at most k*eps / k*sqrt(eps)' is decided as theorem over the reals (53 theorems: "
                 "matrix(Exp x) = exp(generator) in every exact regime of all four types, entrywise bounds <= 9*eps*e^|sigma|*(1+|tau|_1) "
                 "for every input) + measured agreement of the float code with the 192-bit model and with mpmath on the generated inputs"],
 }
@@ -404,7 +405,60 @@ def compare_all(ctx: Ctx, lines, metas):
                 report(ctx, case, i, bad)
     ctx.notes.append("worst block errors (x the property's tolerance): " +
                      ", ".join(f"{k2}={v:.3f}" for k2, v in sorted(worst.items())))
+    measure_rounded(ctx, reps, metas)
     return worst
+
+
+K_GQ, K_GS, K_GM = 16.0, 16.0, 8.0
+
+
+def measure_rounded(ctx: Ctx, reps, metas):
+    """the hypotheses of the rounded-arithmetic theorems (`rounded_so3Exp`, `rounded_sim3Exp`), measured on every sampled
+    case: gamma_q = componentwise distance of the stored quaternion to the model's (up to the overall sign), gamma_s = relative
+    distance of the stored scale, gamma_t = distance of the stored translation, gamma_M = distance of the stored matrix to the
+    EXACT matrix of the STORED element (model `matrix` in 192 bits on the stored floats: the rounding of `matrix()` alone)."""
+    l2, idx = [], []
+    for k, (case, i, gt, gm) in enumerate(metas):
+        if all(math.isfinite(v) for v in gt + gm):
+            l2.append(U.model_call(f"{case['type']}.matrix", common.EPS[case["dtype"]], gt))
+            idx.append(k)
+    r2 = ctx.driver.run(l2)
+    wq, ws, wm, wt = {}, {}, {}, {}
+    for rep, k in zip(r2, idx):
+        case, i, gt, gm = metas[k]
+        name, dtype = case["type"], case["dtype"]
+        e = common.EPS[dtype]
+        n, g = U.MATN[name], U.GDIM[name]
+        w = U.fl(common.reply_nums(reps[k]))
+        q, qm = gt[U.QSL[name]], w[:g][U.QSL[name]]
+        gq = min(max(abs(a - b) for a, b in zip(q, qm)), max(abs(a + b) for a, b in zip(q, qm)))
+        s_st = gt[U.SIDX[name]] if U.SIDX[name] is not None else 1.0
+        gs = abs(s_st - w[U.SIDX[name]]) / w[U.SIDX[name]] if U.SIDX[name] is not None else 0.0
+        Mx = U.fl(common.reply_nums(rep))          # exact matrix of the stored element
+        gM = max(abs(gm[r * n + c] - Mx[r * n + c]) for r in range(3) for c in range(3)) / abs(s_st)
+        wq[dtype] = max(wq.get(dtype, 0.0), gq / e)
+        ws[dtype] = max(ws.get(dtype, 0.0), gs / e)
+        wm[dtype] = max(wm.get(dtype, 0.0), gM / e)
+        bad = {}
+        if not gM <= K_GM * e:
+            bad["gamma_M(rotation block)"] = gM / e
+        if n == 4:
+            tsc = max((abs(v) for v in gt[U.TSL[name]]), default=0.0) if U.TSL[name] is not None else 0.0
+            gMt = max(abs(gm[r * 4 + 3] - Mx[r * 4 + 3]) for r in range(3))
+            wt[dtype] = max(wt.get(dtype, 0.0), (gMt / (e * tsc)) if tsc > 0 else (0.0 if gMt == 0 else float("inf")))
+            if not gMt <= 4 * e * tsc:
+                bad["gamma_M(translation column)"] = gMt
+            if gm[12:16] != Mx[12:16]:
+                bad["gamma_M(bottom row)"] = "differs"
+        ctx.count("rounded-hypotheses-measured")
+        if bad:
+            c = dict(case)
+            c["item"] = i
+            ctx.disagree("rounded", c, f"{U.ALG[name]} {dtype} item {i}: matrix() of the stored element is not the exact matrix of that "
+                                       f"element to the accuracy assumed by the rounded-arithmetic theorems (x eps): {bad}; stored = {gt}")
+    ctx.notes.append("rounded-arithmetic hypotheses measured on every sampled case (x eps): " + ", ".join(
+        f"{d}: gamma_q={wq.get(d, 0):.2f} gamma_s={ws.get(d, 0):.2f} gamma_M={wm.get(d, 0):.2f} gamma_M(t)={wt.get(d, 0):.2f}"
+        for d in sorted(wq)) + f" (assumed <= {K_GQ:g}, {K_GS:g}, {K_GM:g}, 4)")
 
 
 def report(ctx: Ctx, case, i, bad):
@@ -709,6 +763,122 @@ def run_corpus(ctx: Ctx, lines, metas):
         check_batch(ctx, "corpus", name, dtype, rows, shape, api, lines, metas, mode=mode, own=own)
 
 
+
+# ----------------------------------------------------------------------------- glue stream (dispatch, shapes, dtype eps in the model)
+
+ALL_LTYPES = ["SO3", "so3", "SE3", "se3", "Sim3", "sim3", "RxSO3", "rxso3"]
+LT_DIM = {"SO3": 4, "so3": 3, "SE3": 7, "se3": 6, "Sim3": 8, "sim3": 7, "RxSO3": 5, "rxso3": 4}
+GROUP_OF = {"so3": "SO3", "se3": "SE3", "sim3": "Sim3", "rxso3": "RxSO3"}
+
+
+def glue_cases(rng, n_random):
+    """(ltype name, dtype, shape incl. last dim, rows) — seed-independent part first: every type x dtype x a list of lshapes
+    (rank 0..3, extents 0/1/3), then wrong last dimensions and rank-0 tensors, then random ones"""
+    out = []
+    for lt in ALL_LTYPES:
+        for dtype in ("float64", "float32"):
+            for lshape in ((), (1,), (3,), (0,), (2, 3), (3, 1, 2), (2, 0, 3), (1, 1, 1)):
+                out.append((lt, dtype, tuple(lshape) + (LT_DIM[lt],), None))
+            for bad in (LT_DIM[lt] + 1, LT_DIM[lt] - 1, 1):
+                out.append((lt, dtype, (2, bad), None))
+            out.append((lt, dtype, (), None))
+    for _ in range(n_random):
+        lt = rng.choice(ALL_LTYPES)
+        dtype = rng.choice(["float64", "float32"])
+        lshape = rng.choice([U.rand_shape(rng, 3), (rng.randint(0, 9),), (rng.randint(1, 4), rng.randint(0, 4))])
+        last = LT_DIM[lt] if rng.random() < 0.85 else rng.choice([3, 4, 5, 6, 7, 8])
+        out.append((lt, dtype, tuple(lshape) + (last,), None))
+    return out
+
+
+def run_glue(ctx: Ctx, n_random):
+    """the public path `pp.Exp(pp.LieTensor(data, ltype))` -> `.tensor()`, `.matrix()` against the model's own dispatch
+    (`ppExp`, lean/Pose/Model/ExpGlue.lean): accepted/rejected, result ltype, shapes, and the values with the threshold the
+    MODEL derives from the dtype (the harness does not pass eps here)"""
+    rng = ctx.rng
+    P = U.pp()
+    lines, metas = [], []
+    for lt, dtype, shape, _ in glue_cases(rng, n_random):
+        e = common.EPS[dtype]
+        D = U.dt(dtype)
+        width = shape[-1] if shape else 1
+        nrows = int(math.prod(shape[:-1])) if shape else 1
+        alg = lt in GROUP_OF
+        if alg and width == LT_DIM[lt]:
+            rows = [gen_item(rng, GROUP_OF[lt], e) for _ in range(nrows)]
+        elif (not alg) and width == LT_DIM[lt]:
+            rows = [U.gen_group(rng, lt, e)[0] for _ in range(nrows)]
+        else:
+            rows = [[rng.uniform(-1, 1) for _ in range(width)] for _ in range(nrows)]
+        data = torch.tensor(rows, dtype=torch.float64).reshape(shape).to(D) if shape else torch.tensor(0.5, dtype=D)
+        flat = data.double().reshape(-1).tolist()
+        case = {"stream": "glue", "ltype": lt, "dtype": dtype, "shape": list(shape), "data": flat}
+        valid = alg and bool(shape) and width == LT_DIM[lt]
+        status, X = "ok", None
+        try:
+            x = P.LieTensor(data, ltype=getattr(P, lt + "_type"))
+            try:
+                X = P.Exp(x) if rng.random() < 0.5 else x.Exp()
+                T, M = X.tensor(), X.matrix()
+            except AttributeError:
+                status = "noExp"
+        except AssertionError:
+            status = "lastDim"
+        except Exception as ex:
+            if valid:
+                ctx.fail(case, f"raises: pp.Exp(LieTensor(shape {tuple(shape)}, {lt})) raised {type(ex).__name__}: {str(ex)[:140]}")
+                continue
+            status = "other:" + type(ex).__name__
+        ctx.note_case(("glue", lt, dtype, tuple(shape), status), valid)
+        ctx.count(f"glue.{lt}.{status}")
+        lines.append(f"c01.glue {lt} {dtype} {len(shape)} " + " ".join(str(v) for v in shape) + " " + common.wire_list(flat))
+        metas.append((case, valid, status, X, (T, M) if status == "ok" else None, rows))
+    reps = ctx.driver.run(lines)
+    for rep, (case, valid, status, X, TM, rows) in zip(reps, metas):
+        toks = rep.split()
+        lt, dtype = case["ltype"], case["dtype"]
+        mstatus = "ok" if toks[0] == "ok" else toks[1]
+        if not valid:
+            # invalid caller input: the model says "rejected"; what the code does there is recorded, not judged
+            if (mstatus == "ok") != (status == "ok") or (mstatus != "ok" and status != mstatus):
+                ctx.count(f"observation.glue.invalid-input.model={mstatus}.code={status}")
+            continue
+        if mstatus != "ok":
+            raise common.InfraError(f"glue model rejected a valid input: {rep[:80]} for {case['ltype']} {case['shape']}")
+        if status != "ok":
+            ctx.fail(case, f"raises: pp.Exp on a valid {lt} tensor of shape {tuple(case['shape'])} was rejected ({status})")
+            continue
+        T, M = TM
+        g = GROUP_OF[lt]
+        pos = 1
+        mlt = toks[pos]; pos += 1
+        rk = int(toks[pos]); pos += 1
+        mshape = [int(v) for v in toks[pos:pos + rk]]; pos += rk
+        nd = int(toks[pos]); pos += 1
+        mdata = [float(common.from_wire(v)) for v in toks[pos:pos + nd]]; pos += nd
+        mrk = int(toks[pos]); pos += 1
+        mmshape = [int(v) for v in toks[pos:pos + mrk]]; pos += mrk
+        nm = int(toks[pos]); pos += 1
+        mmdata = [float(common.from_wire(v)) for v in toks[pos:pos + nm]]
+        if type(X).__name__ != "LieTensor" or X.ltype != getattr(U.pp(), mlt + "_type") or list(T.shape) != mshape \
+                or list(M.shape) != mmshape or T.dtype != U.dt(dtype) or M.dtype != U.dt(dtype):
+            ctx.fail(case, f"type: pp.Exp({lt} of shape {tuple(case['shape'])}) returned {type(X).__name__} ltype "
+                           f"{type(getattr(X, 'ltype', None)).__name__} shape {list(T.shape)} / matrix {list(M.shape)} {T.dtype}; "
+                           f"the dispatch model gives {mlt} {mshape} / {mmshape}")
+            continue
+        gd, n = U.GDIM[g], U.MATN[g]
+        Tf = T.detach().double().reshape(-1, gd).tolist()
+        Mf = M.detach().double().reshape(-1, n * n).tolist()
+        for i, xi in enumerate(rows):
+            xi = U.to_dtype_exact([xi], dtype)[1][0].tolist()
+            errs = item_errors(g, dtype, xi, Tf[i], Mf[i], mdata[i * gd:(i + 1) * gd], mmdata[i * n * n:(i + 1) * n * n])
+            bad = bad_blocks(errs)
+            if bad and not near_threshold(g, dtype, xi):
+                c = {"stream": "glue", "type": g, "dtype": dtype, "shape": case["shape"][:-1], "api": 0, "mode": 0, "own": False,
+                     "X": [U.to_dtype_exact([r], dtype)[1][0].tolist() for r in rows], "item": i}
+                ctx.disagree("glue", c, f"{lt} {dtype} shape {case['shape']} item {i}: blocks beyond tolerance against the model's own "
+                                        f"dispatch/eps (x tol) {bad}; x = {xi}")
+
 # ----------------------------------------------------------------------------- oracle (mpmath, the property itself)
 
 def generator_mp(name, xi):
@@ -842,6 +1012,7 @@ def run(ctx: Ctx):
     run_random(ctx, ctx.pick(600, 20000), lines, metas)
     run_repeat(ctx, ctx.pick(12, 400), lines, metas)
     compare_all(ctx, lines, metas)
+    run_glue(ctx, ctx.pick(120, 3000))
     confirm_disagreements(ctx)
     run_oracle(ctx, ctx.pick(300, 8000))
 
